@@ -1234,6 +1234,12 @@ impl Ctl {
                 }
                 format!("{:?}", &c[1..])
             };
+            // handles in transit to this thread count as its own
+            let transit = |kind: char| -> Vec<Option<Hnd>> { self.mail.iter().filter(|m| m.0 == i && m.2 == kind).map(|m| Some(m.3)).collect() };
+            let mut rcs_all = sh.rcs.clone();
+            rcs_all.extend(transit('r'));
+            let mut wks_all = sh.wks.clone();
+            wks_all.extend(transit('w'));
             let mut itc = vec![0usize; n + 1];
             for (o, r) in sh.its.iter().flatten() {
                 if *o <= n {
@@ -1243,8 +1249,8 @@ impl Ctl {
             let _ = write!(
                 s,
                 "{{\"rc\":{},\"wk\":{},\"sn\":{},\"ws\":{},\"it\":{:?}}}",
-                cnt(&sh.rcs),
-                cnt(&sh.wks),
+                cnt(&rcs_all),
+                cnt(&wks_all),
                 cnt(&sh.sns),
                 cnt(&sh.wss),
                 &itc[1..]
